@@ -195,3 +195,150 @@ func derivesFromLookup(v ssa.Value, m *ssa.Parameter, seen map[ssa.Value]bool) b
 	}
 	return false
 }
+
+// R-QUANTIFIER-LOOP (C08, C07): a boolean function that decides "for all elements" (or
+// "exists") by a loop must not short-circuit with the wrong polarity.
+func init() {
+	register(&Rule{Name: "R-QUANTIFIER-LOOP", Min: 5,
+		Doc: "in every first-party function returning a single bool whose result after its loop is a constant c, each return inside the loop returns the constant not-c; returning c or a computed value from inside the loop decides the quantifier after the first element(s)",
+		Run: runQuantifierLoop})
+}
+
+func runQuantifierLoop(p *Program, r *RuleResult) {
+	n := 0
+	for _, fn := range p.SrcFuncs {
+		if fn.Parent() != nil || fn.Pkg == nil {
+			continue
+		}
+		pk := fn.Pkg.Pkg.Path()
+		if pk != typesPkg && pk != processPkg {
+			continue
+		}
+		res := fn.Signature.Results()
+		if res.Len() != 1 {
+			continue
+		}
+		if bt, ok := res.At(0).Type().Underlying().(*types.Basic); !ok || bt.Kind() != types.Bool {
+			continue
+		}
+		view := p.View(fn)
+		loops := view.Loops()
+		if len(loops) == 0 {
+			continue
+		}
+		// outermost loops only
+		for li, l := range loops {
+			nested := false
+			for lj, l2 := range loops {
+				if li != lj && l2.Body[l.Header] && len(l2.Body) > len(l.Body) {
+					nested = true
+				}
+			}
+			if nested {
+				continue
+			}
+			// returns reachable only after the loop: blocks not in the loop, reachable from a loop exit
+			var endConst *bool
+			consistent := true
+			var inLoop []*ssa.Return
+			for _, b := range view.Blocks() {
+				ins := view.Instrs(b)
+				ret, ok := ins[len(ins)-1].(*ssa.Return)
+				if !ok {
+					continue
+				}
+				// a return block is "in the loop" if it is reached from a loop block that is not the header's exit edge:
+				// natural loops exclude exit blocks, so classify by dominance: dominated by a body block other than the header
+				fromBody := false
+				for bb := range l.Body {
+					if bb != l.Header && bb.Dominates(b) {
+						fromBody = true
+					}
+				}
+				if fromBody {
+					inLoop = append(inLoop, ret)
+					continue
+				}
+				if !l.Header.Dominates(b) {
+					continue // before the loop
+				}
+				c, isC := ret.Results[0].(*ssa.Const)
+				if !isC {
+					consistent = false
+					continue
+				}
+				v := c.Value != nil && c.Value.String() == "true"
+				if endConst != nil && *endConst != v {
+					consistent = false
+				}
+				endConst = &v
+			}
+			if endConst == nil || !consistent || len(inLoop) == 0 {
+				continue
+			}
+			n++
+			quant := "for-all"
+			if !*endConst {
+				quant = "exists"
+			}
+			bad := ""
+			for _, ret := range inLoop {
+				c, isC := ret.Results[0].(*ssa.Const)
+				if !isC {
+					bad = fmt.Sprintf("the return at %s inside the loop returns a computed value: the %s is decided by the first element that reaches it", p.instrPos(ret), quant)
+					continue
+				}
+				v := c.Value != nil && c.Value.String() == "true"
+				if v == *endConst {
+					bad = fmt.Sprintf("the return at %s inside the loop returns %v, the value meant for 'all elements visited'", p.instrPos(ret), v)
+				}
+			}
+			construct := fmt.Sprintf("%s-loop#%d", quant, li+1)
+			if bad != "" {
+				r.add(fnName(fn), construct, Violated, p.pos(fn.Pos()), bad)
+			} else {
+				r.add(fnName(fn), construct, Holds, p.pos(fn.Pos()), fmt.Sprintf("%d in-loop returns, all %v", len(inLoop), !*endConst))
+			}
+		}
+	}
+	r.count("quantifier loops", n)
+	// degenerate loops: a loop statement whose body never reaches the back edge decides its
+	// quantifier on the first element (the natural loop disappears from the CFG)
+	nBodies := 0
+	for _, fn := range p.SrcFuncs {
+		pk := fn.Pkg
+		if pk == nil && fn.Parent() != nil {
+			pk = fn.Parent().Pkg
+		}
+		if pk == nil || (pk.Pkg.Path() != typesPkg && pk.Pkg.Path() != processPkg) {
+			continue
+		}
+		view := p.View(fn)
+		loops := view.Loops()
+		ord := 0
+		for _, b := range view.Blocks() {
+			switch b.Comment {
+			case "rangeindex.body", "rangeiter.body", "rangechan.body", "for.body", "rangeint.body":
+			default:
+				continue
+			}
+			nBodies++
+			inLoop := false
+			for _, l := range loops {
+				if l.Body[b] {
+					inLoop = true
+				}
+			}
+			if inLoop {
+				continue
+			}
+			ord++
+			pos := ""
+			if len(b.Instrs) > 0 {
+				pos = p.instrPos(b.Instrs[0])
+			}
+			r.add(fnName(fn), fmt.Sprintf("loop-iterates#%d", ord), Violated, pos, "the body of this loop leaves the loop on every path: only the first element is ever examined")
+		}
+	}
+	r.count("loop bodies", nBodies)
+}
